@@ -188,6 +188,11 @@ fn build_plan(cfg: &LinkCfg) -> Vec<Planned> {
             if let Some((m2, s2)) = other {
                 push(Dest::Tap(m2, s2), mtu);
                 push(Dest::Tap(m2, s2), mtu + 1);
+                if m == 0 && slot == 0 {
+                    // oversize lengths whose low 16 bits look harmless
+                    push(Dest::Tap(m2, s2), 65536);
+                    push(Dest::Tap(m2, s2), 65536 + mtu.min(1500));
+                }
                 for l in &cfg.extra_len {
                     push(Dest::Tap(m2, s2), *l);
                 }
@@ -513,6 +518,7 @@ pub fn cfgs(tier: &str) -> Vec<(LinkCfg, Bounds)> {
     add("3 machines (one with 2 taps), 2 nets, mtu 100, latency 5+3 ms", vec![vec![0, 1], vec![0], vec![1]], 2, 100, Lat::Var(5, 3), 0, vec![10], 1);
     add("2 machines, 1 net, mtu 1500, 1000 B/s (whole ms)", vec![vec![0], vec![0]], 1, 1500, Lat::None, 1000, vec![10, 500], d);
     add("3 machines, 1 net, mtu 100, 100000 B/s (fractions of a ms)", vec![vec![0], vec![0], vec![0]], 1, 100, Lat::Const(7), 100_000, vec![50], 1);
+    add("2 machines, 1 net, mtu 65535 (the default), no latency", vec![vec![0], vec![0]], 1, 65535, Lat::None, 0, vec![10], 1);
     if !q {
         add("4 machines, 2 nets (two dual-homed), mtu 65535", vec![vec![0, 1], vec![1, 0], vec![0], vec![1]], 2, 65535, Lat::None, 0, vec![10], 1);
         add("2 machines, 1 net, mtu 65535, 100000 B/s", vec![vec![0], vec![0]], 1, 65535, Lat::Var(5, 3), 100_000, vec![100, 333], 2);
